@@ -17,7 +17,7 @@ def main():
                 verdicts.append("%s → %s" % (k, v["verdict"]))
         if isinstance(r, dict) and r.get("error"):
             verdicts.append("ERROR: " + r["error"])
-        rows.append((sid, m.get("property", "?"), m.get("title", "").replace("|", "/")[:160],
+        rows.append((sid, m.get("property", "harmless" if m.get("kind") == "harmless" else "?"), m.get("title", "").replace("|", "/")[:160],
                      (m.get("needs", "") or "").replace("|", "/").replace("\n", " ")[:220], "; ".join(verdicts) or "not run yet"))
     out = ["# Validation against independently written breaking changes", "",
            "Each change below was written by a fresh sub-agent that saw only the property text and a scratch worktree of the",
@@ -25,13 +25,20 @@ def main():
            "with the change and passes without it (re-confirmed by `tools/confirm_seed.sh`, see `confirmed_by_lead` in each",
            "meta.json). `tools/seeded.py` applies each change to a scratch worktree of /repo HEAD and runs the registered check(s).",
            "Verdicts: *caught-concrete* = VIOLATION with a replayable failing input on the real code; *caught-obligation* =",
-           "VIOLATION … no-failing-input-found (a theorem / correspondence no longer checks); *MISSED* = exit 0.", "",
+           "VIOLATION … no-failing-input-found (a theorem / correspondence no longer checks); *MISSED* = exit 0.",
+           "Rows with property `harmless` are behaviour-preserving refactorings written the same way (they must pass the tests);",
+           "for them the wanted verdict is *silent-ok* for every check anchored in the changed headers.", "",
            "| id | property | change | needs | verdict (check:tier) |", "|---|---|---|---|---|"]
     for r in rows:
         out.append("| %s | %s | %s | %s | %s |" % r)
-    n = len(rows)
-    caught = sum(1 for r in rows if "caught" in r[4] and "MISSED" not in r[4].split(";")[0])
-    out += ["", "%d changes; %d caught by the check of the property they were written against (first verdict)." % (n, caught), ""]
+    br = [r for r in rows if r[1] != "harmless"]
+    hr = [r for r in rows if r[1] == "harmless"]
+    own = lambda r: [v for v in r[4].split("; ") if v.startswith(r[1] + ":")]
+    caught = sum(1 for r in br if own(r) and all("caught" in v for v in own(r)))
+    concrete = sum(1 for r in br if own(r) and all("caught-concrete" in v for v in own(r)))
+    silent = sum(1 for r in hr if "alarm" not in r[4].lower() and r[4] != "not run yet")
+    out += ["", "%d breaking changes: %d caught by the check of the property they were written against, %d of them with a concrete failing input." % (len(br), caught, concrete),
+            "%d behaviour-preserving changes (ids H*): %d leave every check anchored in the changed headers silent; the others raise only `no-failing-input-found` alarms (named obligation / harness build), listed above." % (len(hr), silent), ""]
     open(os.path.join(V, "VALIDATION.md"), "w").write("\n".join(out))
     print("VALIDATION.md: %d rows" % n)
 
